@@ -4,7 +4,7 @@ from ..spec import ESpec, VSpec, hx
 from .. import strcorpus, textgen, runner
 
 SPELLS = ['Ärger', 'ÉCOLE', 'Kelvin', 'Kiss', 'straße', 'İstanbul', 'kelvinK', 'sıfır', 'Ünï-Code', 'ABC', 'abc9', 'MiXeD', 'ſhort', 'Ski', 'is', 'SS', 'ss',
-          'σίσυφος', 'K1', 'aZ', 'q']
+          'σίσυφος', 'K1', 'aZ', 'q', 'dark_black', 'a[0]', 'x^y`z', 'p|q{r}~@']
 
 
 def generate(tier, rng):
@@ -46,6 +46,9 @@ def generate(tier, rng):
                 cand += [(x, tag + '-lookalike') for x in textgen.lookalike_subst(s)]
                 for f in flips[:8]:
                     cand += [(x, tag + '-lookalike') for x in textgen.lookalike_subst(f)]
+                punct = ''.join(chr(ord(ch) ^ 0x20) if ch in '[\\]^_`{|}~@\x7f' else ch for ch in s)
+                if punct != s:
+                    cand += [(punct, tag + '-punct-fold'), (punct.upper(), tag + '-punct-fold'), (punct.swapcase(), tag + '-punct-fold')]
                 cand += [(s.lower(), tag + '-unicode-lower'), (s.upper(), tag + '-unicode-upper'), (s.casefold(), tag + '-casefold'),
                          (s.title(), tag + '-title'), (s.swapcase(), tag + '-unicode-swapcase')]
                 for x, cls in cand:
